@@ -28,6 +28,12 @@ from . import chain as CH   # noqa: E402
 CH.extend(CONTRACTS, CH.wrapper() + CH.tables(pack=True, unpack=False))
 
 
+# every call prepares and uses THIS call's data, whatever earlier calls left on the sampler (contract stated in c08.py)
+from . import c08 as _C08H   # noqa: E402
+from .chain import clone as _clone   # noqa: E402
+CONTRACTS += [_clone(_c, home="c08") for _c in _C08H.make_helper]
+
+
 def EXTRA():
     from jvc import effects
     # call-history independence of the Python plumbing: no module-level cache or other state is written by these modules
